@@ -11,6 +11,7 @@ Section Model.
 Variable scalar : Type.
 Variable ssize : scalar -> option N.    (* ScalarType::get_size *)
 Variable sbool : scalar -> bool.        (* the `Scalar(ScalarType::Bool) => None` arm *)
+Variable amin : N.                      (* get_field_offsets: `if count > amin` *)
 
 Inductive ty :=
 | TScalar (s : scalar)
@@ -71,7 +72,7 @@ Fixpoint offsets (m : mode) (t : ty) (base : N) : list N :=
   | TArr t n =>
       match layout m t with
       | None => []
-      | Some (z, _) => offsets m t base ++ (if 1 <? n then [base + z] else [])
+      | Some (z, _) => offsets m t base ++ (if amin <? n then [base + z] else [])
       end
   | _ => []
   end
